@@ -134,7 +134,7 @@ check("C10", "exploration",
 check("C14", "exploration",
       "Metamorphic relation executed on the real library: unpack(pre+raw+post, len(pre)) vs unpack(raw) for hostile pre/post (delimiters, "
       "copies of raw, 0xff runs): equal values, end offset shifted by len(pre); failing inputs fail identically with every fields_stack "
-      "offset shifted. Declarations are the generator's minus those the statement excludes. Also: positions written before when()/repeated() (prefix relation only) and a population of overlapping fixed-size layouts (backward at / negative shift).",
+      "offset shifted. Declarations are the generator's minus those the statement excludes. Also: positions written before when()/repeated() (prefix relation only) and a population of overlapping fixed-size layouts (backward at / negative shift). Also: one bytes object re-parsed at descending offsets, malformed inputs (steering bytes swept over small negative values on computed sizes), prefixes that put a record byte on a 256/4096/8192 boundary.",
       "Model-free. The parsed region is [offset, highest cursor reached); post is omitted for read-to-end fields and lengthenable regex delimiters.",
       "runtime monitoring: metamorphic oracle (padding invariance) over generated declarations",
       "DESIGN.md section 3 C14")
@@ -197,7 +197,7 @@ check("C15", "exploration",
       "class interleaved with cache tampering (foreign module seeded, .py deleted with its .pyc kept, same-second mtime forced from the "
       "child's close hook, cache removed) over designed same-length variant pairs, option-only variants and generated declarations. "
       "After every define a behaviour probe is compared with the reference model of that variant and earlier classes of the process "
-      "are probed again; the observed file-system trace separates cache hits from rewrites. Also: direction-ladder histories in one process, checksum-neutral twins, foreign modules without cookie.",
+      "are probed again; the observed file-system trace separates cache hits from rewrites. Also: direction-ladder histories in one process, checksum-neutral twins, twins differing only in non-ASCII characters or only in descriptor hooks, foreign modules without cookie, the current declaration's own module cut short, a `python -O` process between two plain ones (stale bytecode).",
       "Trusts the probe vectors to distinguish variants and the forced mtime as a faithful stand-in for a same-second write. Histories are sampled.",
       "runtime monitoring: process-level history exploration with fault injection at file-system hooks + behaviour probe against the reference model",
       "DESIGN.md section 3 C15")
